@@ -25,6 +25,12 @@ INITIALLY_MISSED = {  # seeded changes the checks did not catch when first run a
     "C03-r2-3": "single steps were always requested in increasing consecutive order; second round now skips forward and comes back",
     "C11-r2-1": "no cast between the simulations of an instrument history; casts (after the volatility/variance properties were read) added",
     "C14-r2-1": "no gradient path through prices; a listed hedging instrument whose quote depends on a model parameter added",
+    "C01-r3-1": "hedged derivatives carried no clauses; scenarios now draw knock-out / leverage clauses (payoff() != payoff_fn())",
+    "C04-r3-2": "the relation tolerance was computed from the definition (exp(700) scale) and hid a loss saturated at exp(88); now capped by the same multiple of the computed loss; float64 exponents up to 700",
+    "C07-r3-1": "bound modules were called with no or all arguments; now also with exactly one explicit argument",
+    "C12-r3-2": "every clause was a distinct callable; identical clause specs now share one callable registered under several names",
+    "C15-r3-1": "one fit() per hedger; now a second fit() on the same hedger with the same optimiser argument",
+    "C18-r3-3": "tiny t and v whose product underflows (both non-zero) were not on the boundary grid; added 1e-30 x 1e-31 (float32) and 1e-300 x 1e-200 (float64)",
     "C19-1": "bracket tensors used once; now a second search with the same bracket objects vs fresh copies (differential)",
 }
 
